@@ -864,7 +864,11 @@ XalanTransformer::setStylesheetParam(
             const XalanDOMString&    qname,
             const XalanDOMString&    expression)
 {
-    m_params[qname].m_expression = expression;
+    XalanParamHolder&   theParam = m_params[qname];
+
+    // The last setting wins, whatever kind it is...
+    theParam.m_expression = expression;
+    theParam.m_value = XObjectPtr();
 }
 
 void
@@ -872,7 +876,11 @@ XalanTransformer::setStylesheetParam(
             const XalanDOMString&    qname,
             XObjectPtr               object)
 {
-    m_params[qname].m_value = object;
+    XalanParamHolder&   theParam = m_params[qname];
+
+    // The last setting wins, whatever kind it is...
+    theParam.m_value = object;
+    theParam.m_expression.clear();
 }
 
 
